@@ -254,9 +254,17 @@ func (l *Lexer) peekChar() byte {
 
 func (l *Lexer) prevChar() byte {
 	if l.readPosition < 2 {
-		return l.input[l.readPosition-1]
+		return 0
 	}
 	return l.input[l.readPosition-2]
+}
+
+// peekCharAt returns the byte n positions after the current one, 0 past the end of the input
+func (l *Lexer) peekCharAt(n int) byte {
+	if l.position+n >= len(l.input) {
+		return 0
+	}
+	return l.input[l.position+n]
 }
 
 func (l *Lexer) readIdentifier() string {
@@ -308,15 +316,15 @@ func (l *Lexer) readHTML() string {
 	position := l.position
 
 	for l.ch != 0 {
-		if l.ch == '\\' && l.prevChar() == '\\' && l.peekChar() == '<' {
-			// escape escaping
-			l.readChar()
-			x := l.input[position : l.position-1]
-			return x
-		}
+		// a backslash is an escape only directly in front of a tag opener
+		if l.ch == '\\' && l.peekChar() == '<' && l.peekCharAt(2) == '%' {
+			if l.prevChar() == '\\' {
+				// escape escaping: \\<% is one literal backslash followed by a live tag
+				l.readChar()
+				return strings.Replace(l.input[position:l.position-1], "\\<%", "<%", -1)
+			}
 
-		// allow for expression escaping using \<% foo %>
-		if l.ch == '\\' && l.peekChar() == '<' {
+			// allow for expression escaping using \<% foo %>
 			l.readChar()
 			l.readChar()
 		}
